@@ -245,6 +245,7 @@ func one(u []slot, in, tg state, tv int, base uint64) (string, []fail) {
 
 // Run decides C15.
 func Run(rep *report.Report, tier string) {
+	orders := rt.MapOrders(tier == "thorough")
 	u := universe(tier == "thorough")
 	cat := catalogue(u)
 	type job struct{ i, j, tv int }
@@ -264,7 +265,7 @@ func Run(rep *report.Report, tier string) {
 	var mu sync.Mutex
 	// both iteration orders of the maps the reconciler (and the RIB) walk: the order in which operations of one
 	// category are emitted, and with it the id each one gets, follows the map order
-	for _, order := range []int{0, 1} {
+	for _, order := range orders {
 		rt.MapOrder = order
 		var wg sync.WaitGroup
 		ch := make(chan job)
@@ -282,7 +283,7 @@ func Run(rep *report.Report, tier string) {
 					outcomes[oc]++
 					mu.Unlock()
 					for _, f := range fs {
-						rep.Violate(f.sig, f.what, map[string]any{"intended": describe(u, cat[jb.i]), "target": describe(u, cat[jb.j]), "target_only_instance": tonly[jb.tv].name, "id_base": base, "map_order": []string{"ascending", "descending"}[order]})
+						rep.Violate(f.sig, f.what, map[string]any{"intended": describe(u, cat[jb.i]), "target": describe(u, cat[jb.j]), "target_only_instance": tonly[jb.tv].name, "id_base": base, "map_order": rt.MapOrderName(order)})
 					}
 				}
 			}()
@@ -295,13 +296,13 @@ func Run(rep *report.Report, tier string) {
 	}
 	rt.MapOrder = 0
 	rep.Set("catalogue_states", len(cat))
-	rep.Set("evaluations", 2*len(jobs))
-	rep.Set("distinct_nontrivial", 2*len(jobs)-outcomes["equal/0-ops"])
+	rep.Set("evaluations", len(orders)*len(jobs))
+	rep.Set("distinct_nontrivial", len(orders)*len(jobs)-outcomes["equal/0-ops"])
 	rep.Set("states", len(cat))
-	rep.Set("transitions", 2*len(jobs))
-	rep.Set("traces_validated_against_impl", 2*len(jobs))
+	rep.Set("transitions", len(orders)*len(jobs))
+	rep.Set("traces_validated_against_impl", len(orders)*len(jobs))
 	rep.Set("exhaustive", true)
-	rep.Set("rule", "catalogue = every reference-closed choice of one payload variant (or absence) per key of the universe; cases = ordered pairs of catalogue states x variants of a target-only network instance x 2 map iteration orders; trivial = equal pair without target-only entries")
+	rep.Set("rule", "catalogue = every reference-closed choice of one payload variant (or absence) per key of the universe; cases = ordered pairs of catalogue states x variants of a target-only network instance x map iteration orders (quick: ascending, descending; thorough: also their rotations by 1 and 2 = all orders of a 3-element map); trivial = equal pair without target-only entries")
 	keys := make([]string, 0, len(outcomes))
 	for k := range outcomes {
 		keys = append(keys, k)
